@@ -631,6 +631,8 @@ def op_coq(case):
 
 
 def model_term(case):
+    if not case.get("compat") and case.get("wmap") and case.get("fault"):
+        return None      # a fault firing somewhere inside the swap-back recursion of a failed rebuild: not modelled
     if case.get("compat"):
         return ("OL [OL " + cl(f"ob (compat {o} {i})" for o, _ho in HTAGS for i, _hi in HTAGS) + "; OL "
                 + cl(f"ob (valid {v} {t})" for v in ("(VI 3)", "(VS 3)") for t, _h in HTAGS) + "]")
@@ -1118,7 +1120,8 @@ def gen_replace(rng, comp=None, cand=None, fault="rand"):
         _add_edges(rng, case, [new, new + 1], 1, rng.choice([0, 1]), force_multi=False)
         if not any(statics(case)[a][0] == new or statics(case)[b][0] == new for a, b in case["edges"]):
             return None
-    if comp == "wf" and rng.random() < 0.12:
+    if comp == "wf" and fault in ("rand", None) and rng.random() < 0.12:
+        fault = None              # (a fault firing inside the endless swap-back recursion is not modelled)
         st, cons = _graph(case)
         ent = []
         for c in range(len(st)):
